@@ -107,6 +107,15 @@ class PyReader:
             env[a.vararg.arg] = list(args[len(params):])
         elif len(args) > len(params):
             raise AnalysisError(f"abstract evaluation ({self.where}): too many arguments for {name}")
+        for p in [x.arg for x in a.kwonlyargs]:
+            if kwargs and p in kwargs:
+                env[p] = kwargs[p]
+            else:
+                d_ = a.kw_defaults[[x.arg for x in a.kwonlyargs].index(p)]
+                if d_ is not None:
+                    env[p] = self.ev(d_, {}, {})
+        if a.kwarg:
+            env[a.kwarg.arg] = {k: v for k, v in (kwargs or {}).items() if k not in params and k not in [x.arg for x in a.kwonlyargs]}
         self.depth += 1
         try:
             fns = dict(local_fns or {})
@@ -541,6 +550,12 @@ class PyReader:
             else:
                 args.append(self.ev(a, env, fns))
         kwargs = {k.arg: self.ev(k.value, env, fns) for k in n.keywords if k.arg}
+        for k in n.keywords:
+            if k.arg is None:  # **mapping
+                extra = self.ev(k.value, env, fns)
+                if not isinstance(extra, dict):
+                    self.fail(n, "** of something that is not a dict")
+                kwargs.update(extra)
         if isinstance(n.func, ast.Attribute) and n.func.attr in ("subs", "items", "values", "keys", "get", "pop", "setdefault", "xreplace") or \
                 (isinstance(n.func, ast.Attribute) and not isinstance(n.func.value, ast.Name)) or \
                 (isinstance(n.func, ast.Attribute) and isinstance(n.func.value, ast.Name) and n.func.value.id in env):
